@@ -36,7 +36,8 @@ def describe(tier):
 
 
 # user snippets with several top-level elements: attributes written on the alias go to every top-level element
-MULTI_DEFS = [[('x', '.p'), ('y', '.q')], [('x', ''), ('y', '')], [('x', '[t=1]'), ('y', '.q[t=2]')], [('x', '.p'), ('y', '.q'), ('z', '#i')]]
+MULTI_DEFS = [[('x', '.p'), ('y', '.q')], [('x', ''), ('y', '')], [('x', '[t=1]'), ('y', '.q[t=2]')], [('x', '.p'), ('y', '.q'), ('z', '#i')],
+              [('x', '[class]'), ('y', '[class]')], [('x', '[class]'), ('y', '')], [('x', '[t]'), ('y', '[t class=""]')]]
 MULTI_EXTRAS = ['.z', '[t=3]', '.z.w', '#j.z', '[u=4].z']
 
 
@@ -103,6 +104,10 @@ def simple_pairs(key, D, rev):
     yield 'extra-repeat-child', key + '*2>k', core + tail + '*2>k'
     yield 'extra-selfclose', key + '/', core + '/'
     yield 'extra-all', key + '#i{t}*2', (name + '#i' + own if rev else core + '#i') + '{t}' + tail + '*2'
+    if not tail:
+        yield 'nested-in-itself', key + '>' + key, core + '>' + core
+        yield 'nested-in-itself-deeper', key + '>p>' + key + '.x', core + '>p>' + (name + '.x' + own if rev else core + '.x')
+    yield 'sibling-of-itself', key + '+' + key, core + tail + '+' + core + tail
 
 
 class Depth:
